@@ -1,6 +1,6 @@
 """C12 - patterns, switch, runtime type annotations (static clauses)."""
 from .core import (CheckError, find_match, arm_region, pat_str, strip_ref, short, only_when,
-                   Registry, every_path_passes_correlated)
+                   Registry, every_path_passes_correlated, pat_subsumes, pat_disjoint)
 
 META = {
     'level': 'other',
@@ -16,66 +16,6 @@ META = {
                      'span containment for attributing MIR blocks to match arms'],
     'assumptions': ['inverse-constructor patterns, satisfying-predicates and pattern matching over values are not decided'],
 }
-
-
-def pat_subsumes(g, s):
-    """pattern g matches every value that pattern s matches (structural, conservative)"""
-    g = strip_ref(g)
-    s = strip_ref(s)
-    k = g.get('k')
-    if k in ('wild', 'bind'):
-        return True
-    if k == 'or':
-        return any(pat_subsumes(x, s) for x in g['s'])
-    if s.get('k') == 'or':
-        return all(pat_subsumes(g, x) for x in s['s'])
-    if k == 'path':
-        return s.get('k') == 'path' and s['p'] == g['p']
-    if k == 'ts':
-        if s.get('k') != 'ts' or s['p'] != g['p']:
-            return False
-        gs, ss = _expand(g), _expand(s)
-        n = max(len(gs), len(ss))
-        gs += [{'k': 'wild'}] * (n - len(gs))
-        ss += [{'k': 'wild'}] * (n - len(ss))
-        return all(pat_subsumes(a, b) for a, b in zip(gs, ss))
-    if k == 'tuple':
-        if s.get('k') != 'tuple' or len(s['s']) != len(g['s']):
-            return False
-        return all(pat_subsumes(a, b) for a, b in zip(g['s'], s['s']))
-    return False
-
-
-def _expand(p):
-    subs = list(p['s'])
-    if p.get('dd', -1) >= 0:
-        subs = subs[:p['dd']] + [{'k': 'wild'}] * 4 + subs[p['dd']:]
-        # `..` in the middle never occurs here; pad generously, comparison pads the other side
-        subs = p['s'][:p['dd']] + [{'k': 'wild'}] * 4
-    return subs
-
-
-def pat_disjoint(a, b):
-    a = strip_ref(a)
-    b = strip_ref(b)
-    ka, kb = a.get('k'), b.get('k')
-    if ka in ('wild', 'bind') or kb in ('wild', 'bind'):
-        return False
-    if ka == 'or':
-        return all(pat_disjoint(x, b) for x in a['s'])
-    if kb == 'or':
-        return all(pat_disjoint(a, x) for x in b['s'])
-    if ka in ('path', 'ts', 'struct') and kb in ('path', 'ts', 'struct'):
-        if a['p'] != b['p']:
-            return True
-        if ka == 'ts' and kb == 'ts':
-            for x, y in zip(_expand(a), _expand(b)):
-                if pat_disjoint(x, y):
-                    return True
-        return False
-    if ka == 'tuple' and kb == 'tuple':
-        return any(pat_disjoint(x, y) for x, y in zip(a['s'], b['s']))
-    return False
 
 
 def arm_constants(F, body, m, i):
